@@ -3,6 +3,7 @@
 package c09
 
 import (
+	"context"
 	"encoding/json"
 	"fmt"
 	"io"
@@ -281,6 +282,9 @@ type Req struct {
 	Cred   string `json:"cred"`   // key1 | key2 | both | bearer | badbearer | none | bad1 | bad2
 	Body   string `json:"body"`   // ok | missing-field | garbage | none
 	N      string `json:"n"`      // value of the integer query parameter ("" = absent)
+	// CtxDone: the request's context has ended before the accessors run ("cancelled": the client went away,
+	// "expired": a deadline passed); histories only. A stage's outcome is stored all the same.
+	CtxDone string `json:"ctx_done,omitempty"`
 }
 
 func (r Req) build(token string) *http.Request {
@@ -327,6 +331,16 @@ func (r Req) build(token string) *http.Request {
 		req.Header.Set("Authorization", "Bearer oa-"+token)
 	case "badbearer":
 		req.Header.Set("Authorization", "Bearer bad-"+token)
+	}
+	switch r.CtxDone {
+	case "cancelled":
+		ctx, cancel := context.WithCancel(req.Context())
+		cancel()
+		req = req.WithContext(ctx)
+	case "expired":
+		ctx, cancel := context.WithDeadline(req.Context(), time.Unix(1, 0))
+		_ = cancel
+		req = req.WithContext(ctx)
 	}
 	return req
 }
